@@ -236,7 +236,15 @@ class Rank:
             #
             return None
 
-        if self._attrs.getShape() is not None:
+        if authoritative and self._attrs.getShape() == 0 and len(self.fibers) > 0 \
+           and any(len(f.coords) > 0 for f in self.fibers):
+            #
+            # A recorded 0 is the marker for "unknown" (e.g., from
+            # the YAML of an empty tensor made without a shape)
+            #
+            return None
+
+        if self._attrs.getShape():
             shape = [self._attrs.getShape()]
         elif len(self.fibers) == 0:
             shape = [0]
